@@ -548,6 +548,8 @@ def die_variant():
 # case generation: bounded pre-emption enumeration on the real code
 # ------------------------------------------------------------------------------------------
 def key(c):
+    if is_rec(c):
+        return common.json.dumps(["rec", c["script"], c.get("shape") or {}], sort_keys=True)
     k = [c["script"], c["wait"], c["cs"], bool(c.get("with")), c.get("schedule", [])]
     if is_fine(c):
         k += ["fine", c.get("strategy", "struct"), c.get("sources", [])]
@@ -891,6 +893,16 @@ def generate(rng, tier, scale=1):
                 cfg["faults"] = {"write": {str(rng.randrange(2)): rng.randint(0, 3)}}
             cases += random_walks(cfg, rng, 2)
         cases += generate_fine(rng, tier, scale)
+    # recording histories
+    if scale == 1:
+        for h in REC_HISTORIES:
+            for shp in ({}, {"cs_how": "default", "api": True, "rate": 8000}, {"close_how": "terminate"}):
+                c = {"entry": "rec", "script": [list(x) for x in h], "wait": False, "cs": 2}
+                if shp:
+                    c["shape"] = shp
+                cases.append(c)
+    for _ in range((250 if quick else 6000) * scale):
+        cases.append(random_rec_case(rng))
     # distinct
     seen, out = set(), []
     for c in cases:
@@ -901,10 +913,269 @@ def generate(rng, tier, scale=1):
     return out
 
 
+
+# ------------------------------------------------------------------------------------------
+# recording streams (entry "rec"): histories of record / take / stop / close of the control thread
+# ------------------------------------------------------------------------------------------
+def is_rec(c):
+    return c.get("entry") == "rec"
+
+
+def dev_chunk(i, k, n):
+    """what the fake input device delivers: the k-th read of n frames on stream i
+    (ALV.C17Rec.devChunk has the same numbers)"""
+    return [1000 * (i + 1) + k * n + j for j in range(n)]
+
+
+def run_rec(c):
+    """script: ["record", cs] | ["take", i, n] | ["stop", i] | ["close"]; shape: how record() is written"""
+    mod = lazy_io()
+    be = fakeaudio.new_backend()
+    be.owner = None                  # one thread only: no scheduler, every operation acts directly
+    sh = c.get("shape") or {}
+    be.apis = [dict(a) for a in API_INFOS] if sh.get("api") else []
+
+    class _Input(dict):
+        def __missing__(self, i):
+            return lambda k, n: struct.pack("%df" % n, *dev_chunk(i, k, n))
+    be.input = _Input()
+    ctx = {"io": None, "recs": [], "log": [], "visible": [], "aborted": None}
+
+    def ints(xs):
+        out = []
+        for v in xs:
+            f = Fraction(v)
+            out.append(int(f) if f.denominator == 1 else str(f))
+        return out
+
+    def main():
+        a, kw = [], {}
+        if sh.get("api"):
+            kw["api"] = "jack"
+        io = mod.AudioIO(*a, **kw)
+        ctx["io"] = io
+        for j, cmd in enumerate(c["script"]):
+            op = cmd[0]
+            try:
+                if op == "record":
+                    kw = {}
+                    if sh.get("cs_how") != "default":
+                        kw["chunk_size"] = cmd[1]
+                    else:
+                        type(mod.chunks).size = cmd[1]
+                    if sh.get("rate") is not None:
+                        kw["rate"] = sh["rate"]
+                    r = io.record(**kw)
+                    ctx["recs"].append(r)
+                    ctx["visible"].append([])
+                    ctx["log"].append(["record", "ok"])
+                elif op == "close":
+                    getattr(io, sh.get("close_how", "close"))()
+                    ctx["log"].append(["close", "ok"])
+                else:
+                    i = cmd[1]
+                    if i >= len(ctx["recs"]):
+                        ctx["log"].append(["skipped", "ok"])
+                        continue
+                    r = ctx["recs"][i]
+                    if op == "take":
+                        xs = ints(r.take(cmd[2]))
+                        ctx["visible"][i] += xs
+                        ctx["log"].append(["take", xs])
+                    else:
+                        r.stop()
+                        ctx["log"].append(["stop", "ok"])
+            except Exception as e:
+                k = type(e).__name__
+                ctx["log"].append([op, "IOError" if k in ("OSError", "IOError") else common.err_kind(e)])
+                if not (op == "record" and k in ("OSError", "IOError")):
+                    ctx["aborted"] = j       # an unexpected exception: the history stops here
+                    return
+
+    # a loop of the code under test that never ends (no yield point to stop it at): line budget
+    lines = [0]
+
+    def tracer(frame, event, arg):
+        lines[0] += 1
+        if lines[0] > 400000:
+            raise _LineBudget()
+        return tracer
+
+    saved_size = type(mod.chunks).size
+    outcome = "done"
+    import sys
+    try:
+        sys.settrace(tracer)
+        main()
+    except _LineBudget:
+        outcome = "budget"
+    finally:
+        sys.settrace(None)
+        type(mod.chunks).size = saved_size
+    io = ctx["io"]
+    obs = {
+        "outcome": outcome,
+        "log": ctx["log"],
+        "streams": [{"reads": len(st.reads), "nframes": sorted(set(st.reads)), "closes": st.calls.count("close"),
+                     "state": st.state, "open": {a: b for a, b in sorted(st.kwargs.items())}} for st in be.streams],
+        "recs": [{"recording": bool(r.recording), "visible": ctx["visible"][k]} for k, r in enumerate(ctx["recs"])],
+        "recordings": len(getattr(io, "_recordings", [])) if io is not None else 0,
+        "terminates": be.terminates,
+        "finished": bool(getattr(io, "finished", False)) if io is not None else False,
+        "crashes": [],
+        "aborted": ctx["aborted"],
+        "chosen": [],
+    }
+    if io is not None:
+        io.finished = True
+    # generators left suspended would run their `finally` at garbage-collection time, inside some
+    # later run: finish them now, away from the manager
+    for r in ctx["recs"]:
+        try:
+            r.device_manager = _Sink()
+            r.stop()
+            for _x in r:
+                pass
+        except Exception:
+            pass
+    return obs
+
+
+class _Sink(object):
+    def recording_finished(self, recst):
+        pass
+
+
+class _LineBudget(BaseException):
+    pass
+
+
+def rec_spec_problems(c, io, drv):
+    out = []
+    if io["outcome"] != "done":
+        out.append(("run-does-not-end", str(io["outcome"])))
+    if io["aborted"] is not None:
+        e = io["log"][-1]
+        out.append(("call-raises", "%s raised %s (call %d of the history)" % (e[0], e[1], io["aborted"])))
+    for k, r in enumerate(io["recs"]):
+        st = io["streams"][k] if k < len(io["streams"]) else None
+        if st is None:
+            out.append(("rec-delivered", "recording %d has no device stream" % k))
+            continue
+        cs = (st["nframes"] or [st["open"].get("frames_per_buffer")])[0]
+        data = [x for j in range(st["reads"]) for x in dev_chunk(k, j, cs)]
+        if r["visible"] != data[:len(r["visible"])]:
+            out.append(("rec-delivered", "recording %d handed out %r, the device delivered %r" % (k, r["visible"], data)))
+        if st["closes"] > 1:
+            out.append(("rec-closed-twice", "device stream %d closed %d times" % (k, st["closes"])))
+    if io["terminates"] > 1:
+        out.append(("terminate-count", "terminate called %d times" % io["terminates"]))
+    closed = any(e[0] == "close" and e[1] == "ok" for e in io["log"])
+    if closed and io["aborted"] is None:
+        if io["terminates"] != 1:
+            out.append(("terminate-count", "terminate called %d times after close" % io["terminates"]))
+        if io["recordings"]:
+            out.append(("recordings-left", "_recordings not empty after close"))
+        for k, st in enumerate(io["streams"]):
+            if st["state"] != "closed" or st["closes"] != 1:
+                out.append(("open-after-close", "input stream %d: state %s, closed %d times" % (k, st["state"], st["closes"])))
+        if any(r["recording"] for r in io["recs"]):
+            out.append(("recording-after-close", "a RecStream is still recording after close"))
+    if not drv["spec"]["delivered"]:
+        out.append(("rec-delivered", "the model's own run breaks the delivery invariant"))
+    return out
+
+
+def rec_model_problems(c, io, drv):
+    out = []
+    m = drv["model"]
+    if io["aborted"] is not None:
+        # the history stopped at an exception the model does not have: only what came before counts
+        j = io["aborted"]
+        if io["log"][:j] != m["log"][:j]:
+            out.append("log before the exception: impl %r model %r" % (io["log"][:j], m["log"][:j]))
+        return out
+    if io["log"] != m["log"]:
+        out.append("log: impl %r model %r" % (io["log"], m["log"]))
+    sh = c.get("shape") or {}
+    for k, st in enumerate(io["streams"]):
+        if k >= len(m["streams"]):
+            out.append("input stream %d unknown to the model" % k)
+            break
+        ms = m["streams"][k]
+        if st["reads"] != ms["reads"] or st["closes"] != ms["closes"] or (st["state"] == "closed") != ms["done"]:
+            out.append("input stream %d reads/closes/closed: impl %s/%s/%s model %s/%s/%s" % (
+                k, st["reads"], st["closes"], st["state"] == "closed", ms["reads"], ms["closes"], ms["done"]))
+        if st["nframes"] not in ([], [ms["cs"]]):
+            out.append("input stream %d: frames per read %r, chunk size %d" % (k, st["nframes"], ms["cs"]))
+        want = {"format": 1, "channels": 1, "rate": sh.get("rate") or 44100, "frames_per_buffer": ms["cs"], "input": True}
+        if sh.get("api"):
+            want["input_device_index"] = API_INFOS[1]["defaultInputDevice"]
+        if st["open"] != want:
+            out.append("input stream %d: pa.open(**%r), expected %r" % (k, st["open"], want))
+    for k, r in enumerate(io["recs"]):
+        if k < len(m["streams"]):
+            ms = m["streams"][k]
+            if r["recording"] != ms["recording"] or r["visible"] != ms["out"][:len(r["visible"])]:
+                out.append("recording %d recording/handed out: impl %s/%r model %s/%r" % (
+                    k, r["recording"], r["visible"], ms["recording"], ms["out"]))
+    if len(m["streams"]) != len(io["streams"]):
+        out.append("streams: impl %d model %d" % (len(io["streams"]), len(m["streams"])))
+    if io["terminates"] != m["terminates"] or io["finished"] != m["finished"] or io["recordings"] != len(m["recordings"]):
+        out.append("terminates/finished/_recordings: impl %s/%s/%s model %s/%s/%s" % (
+            io["terminates"], io["finished"], io["recordings"], m["terminates"], m["finished"], len(m["recordings"])))
+    return out
+
+
+def random_rec_case(rng):
+    n = rng.randint(2, 9)
+    script, nrec = [], 0
+    for _ in range(n):
+        r = rng.random()
+        if nrec == 0 or r < 0.25:
+            script.append(["record", rng.choice([1, 2, 3, 4])])
+            nrec += 1
+        elif r < 0.65:
+            script.append(["take", rng.randrange(nrec + (1 if rng.random() < 0.05 else 0)), rng.randint(0, 7)])
+        elif r < 0.85:
+            script.append(["stop", rng.randrange(nrec)])
+        else:
+            script.append(["close"])
+    if rng.random() < 0.8:
+        script.append(["close"])
+        if rng.random() < 0.3:
+            script.append(rng.choice([["take", 0, 3], ["record", 2], ["close"]]))
+    sh = {}
+    if rng.random() < 0.3:
+        sh["cs_how"] = "default"
+    if rng.random() < 0.3:
+        sh["rate"] = rng.choice([8000, 48000])
+    if rng.random() < 0.3:
+        sh["api"] = True
+    if rng.random() < 0.2:
+        sh["close_how"] = "terminate"
+    c = {"entry": "rec", "script": script, "wait": False, "cs": 2}
+    if sh:
+        c["shape"] = sh
+    return c
+
+
+REC_HISTORIES = [
+    [["record", 3], ["close"]],
+    [["record", 3], ["take", 0, 4], ["close"]],
+    [["record", 2], ["take", 0, 3], ["stop", 0], ["take", 0, 5], ["take", 0, 1], ["close"]],
+    [["record", 3], ["take", 0, 4], ["record", 2], ["take", 1, 1], ["stop", 0], ["take", 0, 1], ["close"], ["take", 1, 5], ["record", 2]],
+    [["record", 2], ["record", 1], ["record", 3], ["take", 1, 2], ["take", 2, 1], ["close"], ["close"]],
+    [["record", 2], ["stop", 0], ["take", 0, 2], ["close"]],
+    [["close"], ["record", 2]],
+]
+
 # ------------------------------------------------------------------------------------------
 # engine interface
 # ------------------------------------------------------------------------------------------
 def impl(c):
+    if is_rec(c):
+        return run_rec(c)
     k = key(c)
     o = _obs_cache.pop(k, None)
     if o is None:
@@ -951,6 +1222,8 @@ def request_for(c, chosen):
 
 
 def request(c):
+    if is_rec(c):
+        return {"entry": "rec", "script": c["script"]}
     k = key(c)
     chosen = _chosen.pop(k, None)
     if chosen is None:
@@ -1093,6 +1366,9 @@ def model_problems(c, io, drv):
 def compare(c, io, drv):
     if "err" in io:
         return [("model", "harness failure " + str(io)[:300])]
+    if is_rec(c):
+        return ([("model", d) for d in rec_model_problems(c, io, drv)[:3]]
+                + [("spec", "%s: %s" % (k, d)) for k, d in rec_spec_problems(c, io, drv)[:3]])
     out = [("model", d) for d in model_problems(c, io, drv)[:3]]
     out += [("spec", "%s: %s" % (k, d)) for k, d in spec_problems(c, io, drv)[:3]]
     return out
@@ -1101,6 +1377,19 @@ def compare(c, io, drv):
 def classify(c, io, drv):
     if "err" in io:
         return "harness:" + str(io.get("err"))
+    if is_rec(c):
+        sp = rec_spec_problems(c, io, drv)
+        agrees = not rec_model_problems(c, io, drv)
+        if not sp:
+            return "correspondence"
+        j = io.get("aborted")
+        fl = drv["model"].get("finishes_later", [])
+        if (j is not None and io["log"][-1][1] == "TypeError" and j < len(fl) and fl[j] and not any(fl[:j])):
+            # the model predicts exactly this call as the first one that finishes (closes) a recording
+            # stream which is not the oldest one still in _recordings
+            return ("rec:%s-raises-TypeError:finishes-a-recording-that-is-not-the-oldest-active-one" % io["log"][-1][0]
+                    + ("" if agrees else ":MODEL-DISAGREES"))
+        return "rec:" + sp[0][0] + ("" if agrees else ":MODEL-DISAGREES")
     sp = spec_problems(c, io, drv)
     agrees = not model_problems(c, io, drv)
     if not sp:
@@ -1128,6 +1417,8 @@ def classify(c, io, drv):
 
 
 def nontrivial(c, io):
+    if is_rec(c):
+        return len(io.get("streams", [])) >= 1 or len(c["script"]) >= 2
     if io.get("outcome") == "bad-schedule":
         return False
     ch = io.get("chosen", [])
@@ -1135,7 +1426,32 @@ def nontrivial(c, io):
     return len(io.get("alive", [])) >= 1 and switches >= 2
 
 
+def tally_rec(eng, c, io):
+    eng.count("granularity", "recording histories (record / take / stop / close)")
+    eng.count("rec.outcome", "stopped at an exception" if io.get("aborted") is not None else io.get("outcome"))
+    eng.count("rec.streams", len(io.get("streams", [])))
+    sh = c.get("shape") or {}
+    eng.count("rec.shape", ",".join(sorted("%s=%s" % kv for kv in sh.items())) or "plain")
+    for e in io.get("log", []):
+        eng.count("rec.events", e[0] + ":" + (e[1] if isinstance(e[1], str) else "%d items" % len(e[1])))
+    closed = False
+    for cmd in c["script"]:
+        if cmd[0] == "close":
+            closed = True
+        elif closed:
+            eng.count("rec.after_close", cmd[0])
+    for k, st in enumerate(io.get("streams", [])):
+        r = io["recs"][k] if k < len(io["recs"]) else None
+        if r is not None and st["nframes"]:
+            left = st["reads"] * st["nframes"][0] - len(r["visible"])
+            eng.count("rec.at_close", "never read" if st["reads"] == 0 else ("chunk used up" if left == 0 else "in the middle of a chunk"))
+        elif st["reads"] == 0:
+            eng.count("rec.at_close", "never read")
+
+
 def tally(eng, c, io):
+    if is_rec(c):
+        return tally_rec(eng, c, io)
     eng.count("outcome", io.get("outcome"))
     eng.count("variant", io.get("variant"))
     ch = io.get("chosen", [])
@@ -1290,7 +1606,23 @@ def _shrink_candidates(c):
             yield dict(c, strategy="struct")
 
 
+def _rec_shrinks(c):
+    sc = c["script"]
+    for i in range(len(sc)):
+        if len(sc) > 1:
+            yield dict(c, script=sc[:i] + sc[i + 1:])
+    for i, cmd in enumerate(sc):
+        if cmd[0] == "take" and cmd[2] > 0:
+            yield dict(c, script=sc[:i] + [["take", cmd[1], cmd[2] - 1]] + sc[i + 1:])
+        if cmd[0] == "record" and cmd[1] > 1:
+            yield dict(c, script=sc[:i] + [["record", cmd[1] - 1]] + sc[i + 1:])
+    if c.get("shape"):
+        yield {k: v for k, v in c.items() if k != "shape"}
+
+
 def shrink(c):
+    if is_rec(c):
+        return list(_rec_shrinks(c))
     cands = list(_shrink_candidates(c))
     if not cands:
         return []
@@ -1301,6 +1633,10 @@ def shrink(c):
 
 
 def neighbours(c):
+    if is_rec(c):
+        for i in range(len(c["script"]) + 1):
+            yield dict(c, script=c["script"][:i] + [["close"]] + c["script"][i:])
+        return
     yield dict(c, wait=not c["wait"])
     sch = c.get("schedule", [])
     for i in range(len(sch) - 1):
